@@ -84,4 +84,26 @@ def instantiate(name, terms, ip=None):
         j = z3.Int('j!ext')
         return [z3.Implies(z3.And(z3.Length(p) == z3.Length(q),
                                   z3.ForAll([j], z3.Implies(z3.And(0 <= j, j < z3.Length(p)), p[j] == q[j]))), p == q)]
+    if name == 'iprod_step':      # definition of iprod unfolded once at k, with a common factor c:
+        # c * iprod(arr, k+1) == (c * iprod(arr, k)) * sdec(arr[k])   for k >= 0
+        from . import vocab_sym
+        items = terms[0]
+        kk = zint(terms[1])
+        c = zint(terms[2])
+        arr = items.arr
+        f = vocab_sym.iprod_f
+        return [z3.Implies(kk >= 0, f(arr, kk + 1) == f(arr, kk) * vocab_sym.sdec_f(z3.Select(arr, kk))),
+                z3.Implies(kk >= 0, c * f(arr, kk + 1) == (c * f(arr, kk)) * vocab_sym.sdec_f(z3.Select(arr, kk)))]
+    if name == 'iprodc_step':     # iprodc(c, arr, k+1) == iprodc(c, arr, k) * sdec(arr[k])  for k >= 0
+        from . import vocab_sym
+        items = terms[0]
+        kk = zint(terms[1])
+        c = zint(terms[2])
+        f = vocab_sym.iprodc_f
+        from .models import mul_f
+        return [z3.Implies(kk >= 0, f(c, items.arr, kk + 1) == mul_f(f(c, items.arr, kk), vocab_sym.sdec_f(z3.Select(items.arr, kk))))]
+    if name == 'xor_zero':        # P-XOR: the little-endian value of a xor b is zero iff a == b (equal lengths)
+        p, q = bexpr(terms[0]), bexpr(terms[1])
+        xf = z3.Function('xor_f', BYTES, BYTES, BYTES)
+        return [z3.Implies(z3.Length(p) == z3.Length(q), (sym.ulittle(xf(p, q)) == 0) == (p == q))]
     raise KeyError(name)
